@@ -461,7 +461,7 @@ def enterInner (t : Ty) (p : Params) (b : Bytes) (tal : Tal) : Res (Bytes × Par
      | .ok tal' =>
        if tal'.off + tal'.len > inner.length then .err
        else if tagOk t { p with tagNumber := none, explicit := false } tal' then
-         .ok (inner, { p with tagNumber := none, explicit := false }, tal')
+         .ok (inner.take (tal'.off + tal'.len), { p with tagNumber := none, explicit := false }, tal')
        else .err
      | .err => .err
      | .panic => .panic)
@@ -475,8 +475,8 @@ def enter (t : Ty) (p : Params) (b : Bytes) : Res (Bytes × Params × Tal) :=
   | .ok tal =>
     if tal.off + tal.len > b.length then .err
     else if !tagOk t p tal then .err
-    else if needsUnwrap t p then enterInner t p b tal
-    else .ok (b, p, tal)
+    else if needsUnwrap t p then enterInner t p (b.take (tal.off + tal.len)) tal
+    else .ok (b.take (tal.off + tal.len), p, tal)
   | .err => .err
   | .panic => .panic
 
